@@ -85,6 +85,8 @@ def run_case(case, name):
 
     rec = {"trace": [], "outs": [], "ntfs": [], "snaps": [], "notes": [], "log": []}
     prog = case["prog"]
+    construct_fails = set(case.get("construct_fails", []))     # 1-based numbers of the construct_model calls that raise
+    nconstruct = [0]
     lcmds = case.get("lcmds", [])                 # commands issued from listeners
     lcount = [0] * len(lcmds)
     tls = threading.local()
@@ -269,6 +271,10 @@ def run_case(case, name):
         def construct_model(self):
             self.created = []
             self.interp(0)
+            nconstruct[0] += 1
+            if nconstruct[0] in construct_fails:
+                # the model's own construction fails (after the simulator has created its run thread)
+                raise RuntimeError("construct_model failed")
 
         def handle(self, h, k):
             with lock:
@@ -382,7 +388,9 @@ def run_case(case, name):
         run_seq(case.get("after", []))
 
     # run-thread liveness once the replication has ended / after cleanup
-    if sim.run_state.name in ("ENDED", "NOT_INITIALIZED") or sim.replication_state.name in ("ENDED", "NOT_INITIALIZED"):
+    # (a simulator whose initialize was aborted by the model is NOT_INITIALIZED but still holds its new run thread)
+    if (sim.run_state.name == "ENDED" or sim.replication_state.name == "ENDED"
+            or (sim.run_state.name == "NOT_INITIALIZED" and cur_worker() is None)):
         t0 = time.time()
         while any(w.is_alive() for w in workers()) and time.time() - t0 < 1.0:
             time.sleep(0.001)
@@ -395,8 +403,12 @@ def run_case(case, name):
     t0 = time.time()
     while any(w.is_alive() for w in workers()) and time.time() - t0 < 2.0:
         time.sleep(0.001)
-    if any(w.is_alive() for w in workers()):
-        rec["notes"].append("run thread alive after the final cleanup")
+    # every run thread this history created must be gone after the final cleanup(); count by identity
+    left = [w for w in workers() if w.is_alive()]
+    rec["leaked"] = len(left)
+    for w in left:              # do not let a leaked non-daemon thread keep this interpreter alive
+        w._finalized = True
+        w.wakeup()
     return rec
 
 
